@@ -24,6 +24,8 @@ fn key_seeds(rng: &mut Prng, count: usize) -> Vec<Vec<u8>> {
 pub fn generate_c01(tier: &str, rng: &mut Prng) -> Vec<Case> {
     let mut ops = vec![];
     let thorough = tier == "thorough";
+    // what `sign` hands to `compress` for the rare signatures that fill the fixed size to the last byte
+    crate::c04::full_budget_bodies(tier, rng, &mut ops);
     for n in [512usize, 1024] {
         // keys from seeds whose candidate stream contains an f with a zero NTT slot (a key generator that lets such an f
         // through yields keys whose signatures do not verify)
@@ -117,6 +119,7 @@ pub fn oracle_sign_model(op: &[&str], out: &str) -> Verdict {
 
 pub fn oracle_c01(op: &[&str], out: &str) -> Verdict {
     match op[0] {
+        "compress" => crate::c07::oracle(op, out),
         "sign_model" => oracle_sign_model(op, out),
         "sign" => {
             if out.starts_with("PANIC") {
@@ -176,6 +179,12 @@ pub fn generate_c08(tier: &str, rng: &mut Prng) -> Vec<Case> {
             let rs = if i % 5 == 0 { 77 } else { rng.next() >> 1 };
             ops.push(Case::new(format!("sign_salt {n} {} {} {rs}", hex(ks), hex(&msg))));
         }
+        // the salt binds the hashed point for every message length, also beyond 65536 SHAKE blocks
+        for l in [0usize, 1, 96, 97, 1000, 65536 * 136 - 40 + 17] {
+            if thorough || l != 97 {
+                ops.push(Case::new(format!("salt_binds {n} rep:{l}:")));
+            }
+        }
         // the model of `sign` takes the salt from the first 40 bytes of the stream: same bytes as the real code
         sign_model_ops(n, &keys[0], if thorough { 6 } else { 1 }, rng, &mut ops);
         // thorough, Falcon-512: enough signatures for a birthday collision in any 32-bit bottleneck of the salt's source
@@ -186,6 +195,13 @@ pub fn generate_c08(tier: &str, rng: &mut Prng) -> Vec<Case> {
 
 pub fn oracle_c08(op: &[&str], out: &str) -> Verdict {
     match op[0] {
+        "salt_binds" => {
+            if out == "differ" {
+                Verdict::Pass
+            } else {
+                Verdict::Fail(format!("two different salts in front of this message hash to the same point ({out})"))
+            }
+        }
         "sign_model" => oracle_sign_model(op, out),
         "sign_salt" => {
             let p: Vec<&str> = out.split(' ').collect();
